@@ -887,7 +887,7 @@ class Reader:
             if m and m.group(1) in holds:
                 continue
             # range validation of a value just read: `if (i == (int) E::A || i == (int) E::B) assign; else error`
-            m = re.match(r"^if (\w+) == \(int\) ?[\w:]+( \|\| (\w+) == \(int\) ?[\w:]+)*$", s)
+            m = re.match(r"^if (\w+) (?:==|>=|<=) \(int\) ?[\w:]+( (?:\|\||&&) (\w+) (?:==|>=|<=) \(int\) ?[\w:]+)*$", s)
             if m and m.group(1) in holds and (m.group(3) is None or m.group(3) == m.group(1)):
                 continue
             # conditional constant side effect on another member: `if (this->X) this->Y = false;`
@@ -1505,7 +1505,7 @@ def emit(tables):
         for c in t["reader"]["cases"]:
             rows.append(f"    ⟨{ll(str(l) for l in c['labels'])}, {ll(ls(m) for m in c['sinks'])}, .{c['kind']}, {ls(c['child'])}, "
                         f"{c['htok']}, {ll(ls(f) for f in c['flags'])}, {'true' if c.get('continues') or c.get('default_line') else 'false'}, "
-                        f"{'true' if c['use_last'] else 'false'}⟩")
+                        f"{'true' if c['use_last'] else 'false'}, {ll(ls(m) for m in c.get('clobbers', []))}⟩")
         o.append(",\n".join(rows) + "]")
         o.append(f"  unknownReturns := {'true' if t['reader']['unknown'] == 'return' else 'false'}")
         o.append(f"  usesLastLine := {'true' if t['reader']['uses_last'] else 'false'}")
